@@ -47,7 +47,7 @@ theorem spec_rAppend : stepR c s .rAppend = some s' ↔ ∃ v i, s.rpc = .app v 
     exact h v i h1
 
 theorem spec_rPut : stepR c s .rPut = some s' ↔ ∃ m, s.rpc = .put m ∧
-    { s with inq := s.inq ++ [m], rpc := match m.pay with | .item _ => .top | _ => .exited } = s' := by
+    { s with inq := s.inq ++ [m], rpc := match m.pay with | .item _ => .top | _ => .ret } = s' := by
   simp only [stepR]
   split
   · rename_i m h
@@ -59,6 +59,9 @@ theorem spec_rPut : stepR c s .rPut = some s' ↔ ∃ m, s.rpc = .put m ∧
     simp only [reduceCtorEq, false_iff]
     rintro ⟨m, h1, _⟩
     exact h m h1
+
+theorem spec_rRet : stepR c s .rRet = some s' ↔ s.rpc = .ret ∧ { s with rpc := .exited } = s' := by
+  simp only [stepR]; split <;> simp_all
 
 /-! ### workers -/
 
@@ -259,7 +262,7 @@ theorem spec_cGet : stepC c s .cGet = some s' ↔ ∃ m rest, s.cpc = .get ∧ o
     rintro ⟨m, rest, h1, _⟩
     exact h h1
 
-theorem spec_cGetT : stepC c s .cGetT = some s' ↔ s.cpc = .get ∧ outq c s = [] ∧ { s with cpc := .top } = s' := by
+theorem spec_cGetT : stepC c s .cGetT = some s' ↔ s.cpc = .get ∧ outq c s = [] ∧ { s with cpc := afterEmpty c s } = s' := by
   simp only [stepC]
   split
   · split <;> simp_all
@@ -311,6 +314,21 @@ theorem spec_cPop : stepC c s .cPop = some s' ↔ ∃ m y, s.cpc = .pop m ∧ m.
     simp only [reduceCtorEq, false_iff]
     rintro ⟨m, y, h1, _⟩
     exact h m h1
+
+theorem spec_cDeadIsSet : stepC c s .cDeadIsSet = some s' ↔ s.cpc = .dchk1 ∧
+    { s with cpc := if s.stop then .top else .dchk2 } = s' := by
+  simp only [stepC]; split <;> simp_all
+
+theorem spec_cDeadMpIsSet : stepC c s .cDeadMpIsSet = some s' ↔ s.cpc = .dchk2 ∧
+    { s with cpc := if s.mpstop then .top else .dset1 } = s' := by
+  simp only [stepC]; split <;> simp_all
+
+theorem spec_cDeadSet : stepC c s .cDeadSet = some s' ↔ s.cpc = .dset1 ∧ { s with stop := true, cpc := .dset2 } = s' := by
+  simp only [stepC]; split <;> simp_all
+
+theorem spec_cDeadMpSet : stepC c s .cDeadMpSet = some s' ↔ s.cpc = .dset2 ∧
+    { s with mpstop := true, rterr := s.rterr + 1, cpc := .idle } = s' := by
+  simp only [stepC]; split <;> simp_all
 
 theorem spec_cShutSet : stepC c s .cShutSet = some s' ↔ s.cpc = .idle ∧ { s with stop := true, cpc := .shut1 } = s' := by
   simp only [stepC]; split <;> simp_all
